@@ -15,6 +15,7 @@ pub mod c14;
 pub fn tables() -> Vec<(&'static str, vsrc::NativeFn)> {
     let mut t = Vec::new();
     t.extend(c13::table());
+    t.extend(c13::types::table());
     t.extend(c14::table());
     t
 }
